@@ -90,6 +90,23 @@ func badBytes(class string, variant int, own json.RawMessage) (payload string, r
 		return "{\"jsonrpc\":\"2.0\",\"method\":\"notifications/message\",\"params\":{\"data\":\"bad \xff\xfe utf8 \xc3\x28\"}}", false
 	case "control-repeat":
 		return "event: endpoint\ndata: /message?sessionId=again", true
+	case "fieldtype":
+		// an answer to this very call whose fields have the wrong JSON types
+		results := []string{
+			`{"content":[{"type":"audio","data":5,"mimeType":"audio/wav"}]}`,
+			`{"content":[{"type":"audio","data":"aGk=","mimeType":null}]}`,
+			`{"content":[{"type":"text","text":5}]}`,
+			`{"content":[{"type":"image","data":{"x":1},"mimeType":"image/png"}]}`,
+			`{"content":[{"type":"resource","resource":"not-an-object"}]}`,
+			`{"content":"not-an-array"}`,
+			`{"content":[7,null,"x"]}`,
+			`{"content":[{"type":"text","text":"t"}],"isError":"yes"}`,
+			`"a string"`,
+			`{"content":[{"type":{"nested":true},"text":"t"}]}`,
+			`{"content":[{"type":"resource","resource":{"uri":5,"text":[1]}}]}`,
+			`{"content":[{"type":"text","text":"t","annotations":"x"}],"structuredContent":"s"}`,
+		}
+		return fmt.Sprintf(`{"jsonrpc":"2.0","id":%s,"result":%s}`, own, results[variant%len(results)]), false
 	case "truncated":
 		return fmt.Sprintf(`{"jsonrpc":"2.0","id":%s,"result":{"content":[{"type":"te`, own), false
 	}
@@ -347,6 +364,9 @@ func c07Run(sc c07Scenario) (res c07Result) {
 			return c
 		}
 		c.OK = true
+		if sc.Bad == "fieldtype" {
+			c.Own = true // the oddly typed answer carried this call's id: accepting it leniently is not a foreign answer
+		}
 		if len(r.Content) == 1 {
 			if tc, ok := r.Content[0].(mcp.TextContent); ok && (tc.Text == "A:"+nonce || tc.Text == "A:STDIO") {
 				c.Own = true
